@@ -164,17 +164,6 @@ def make_f(qp, prog):
     return f
 
 
-def has_block(body, kinds=None):
-    for st in body:
-        if isinstance(st, list):
-            if kinds is None or st[0] in kinds:
-                return True
-            for part in st[1:]:
-                if isinstance(part, list) and part and isinstance(part[0], (str, list)) and has_block(part, kinds):
-                    return True
-    return False
-
-
 # --------------------------------------------------------------------------------------------- enumeration
 def bodies(atoms, maxlen):
     import itertools
@@ -220,11 +209,6 @@ def blocks_over(inner, quick):
         out.append(["cond3", "x>", "T", singles[0], singles[1], singles[2]])
         out.append(["cond3", "F", "x<", singles[0], singles[1], singles[2]])
     return out
-
-
-def uses_wire3(body):
-    """RYi may address wire 3 inside loops; inside ctrl the control (wire 4) is never touched, fine."""
-    return False
 
 
 def nested_ok(outer, inner):
